@@ -11,7 +11,7 @@ class C14(Prop):
     prop_file = "Props/C14.v"
     rule = ("uniform noise, 0x68-dense noise, header-shaped noise (plausible recipients, senders, lengths), each followed by a run of "
             "k >= 2 + 1000/|frame| identical valid frames of a random kind; per call: outcome class and bytes consumed; resynchronisation: "
-            "index of first delivery against |noise| + 1000 + |frame|.  Non-trivial = the model reports at least one protocol error; "
+            "index of first delivery against |noise| + 1000 + |frame|; plus every type byte 0..255 in a valid, correctly addressed envelope.  Non-trivial = the model reports at least one protocol error; "
             "distinct by stream bytes.")
     assumptions = ["the producer loop surviving protocol errors is exercised by the C09 check on the real AsyncProtocol",
                    "the 10 s read timeout is a fault event of C11, not part of this model"]
@@ -49,6 +49,13 @@ class C14(Prop):
         for _ in range(n // 3):
             mode = rng.choice(["uniform", "dense68", "header"])
             cases.append({"kind": "noise-only:" + mode, "noise": list(G.noise(rng, rng.randrange(0, 300), mode)), "f": None, "k": 0})
+        # every one of the 256 type bytes in an otherwise valid, correctly addressed envelope (after a little noise): the
+        # reader must answer with a delivery or a protocol error whatever the table of kinds says about that byte
+        for kind in range(256):
+            for _ in range(1 if tier == "quick" else 6):
+                payload = bytes(rng.randrange(256) for _ in range(rng.choice([0, 1, 2, 9])))
+                fb = G.enc(kind, rng.choice([0x56, 0x00]), rng.choice([0x45, 0x51]), 48, 5, payload)
+                cases.append({"kind": "typebyte-sweep", "noise": list(G.noise(rng, rng.choice([0, 3]), "uniform") + fb), "f": None, "k": 0})
         return cases
 
     @staticmethod
